@@ -33,6 +33,8 @@ def alphabet(world, prop):
     ev.append(('DISPATCH', 2))
     if prop == 'C03':
         ev.append(('DISPATCH', 0))
+        # a tick during which the database fails at its second run-id draw (farm.dispatch allows for it)
+        ev.append(('DBFAULT', 2))
     ocs = {'C01': ('ok-new', 'ok-old', 'fail'), 'C03': ('ok-new', 'ok-old', 'fail'),
            'C04': OUTCOMES, 'C05': ('ok-new', 'fail'), 'C02': ('ok-11', 'ok-10', 'ok-01', 'ok-00', 'fail')}[prop]
     for which in ('oldest', 'newest'):
@@ -216,6 +218,9 @@ def hist_body(shape, prop, k, sel, drain=None, wkw=None):
             elif ev[0] == 'TIMER':
                 rt.note(f'TIMER {ev[1]}')
                 w.timer(ev[1])
+            elif ev[0] == 'DBFAULT':
+                rt.note(f'DISPATCH +2w, the database fails at run-id draw #{ev[1]} of this tick')
+                w.dispatch(2, fail_at=ev[1])
             else:
                 rt.note(f'DISPATCH +{ev[1]}w')
                 del w.released[:]
@@ -289,7 +294,7 @@ def make_obligations(prop, module, tier, shapes_quick, shapes_thorough, kq, kt, 
                     imports=f'from vp.harness import sched\nsched.prepare({shape!r}, **{wkw or {}!r})',
                 )
             )
-        if prop in ('C03', 'C05') and len(w.order) > 1 and '@' not in shape:
+        if prop in ('C01', 'C03', 'C04', 'C05') and len(w.order) > 1 and '@' not in shape:
             # directed family: a dependent is executing when its ancestor is requested, runs and reports
             # (late replies after an ancestor's outcome), then 2 free events
             al = alphabet(w, prop)
